@@ -206,3 +206,59 @@ Proof.
   - intros i j Hi Hj. assert (j = 0%nat) by lia. assert (i = 0%nat) by lia. subst. unfold cprod_re, cre, cim, sre. cbn. ring.
   - intros i j Hi Hj. assert (j = 0%nat) by lia. assert (i = 0%nat) by lia. subst. unfold cprod_im, cre, cim, sre. cbn. ring.
 Qed.
+
+(* ---------- truncated_svd on complex scalars for EVERY n_eigenvecs (None, 0, > min(shape), > max(shape)) ---------- *)
+Lemma cfrob2_nonneg m n Xr Xi : 0 <= cfrob2 m n Xr Xi.
+Proof. unfold cfrob2. apply rsum_nonneg; intros i _. apply rsum_nonneg; intros j _. apply Rplus_le_le_0_compat; apply pow2_ge_0. Qed.
+
+Theorem complex_truncated_best_gen (oracle : bool -> triple CR) d1 d2 (Mr Mi : nat -> nat -> R) n :
+  (forall f, csvd_contract d1 d2 Mr Mi f (oracle f)) ->
+  let k := n_kept d1 d2 n in
+  let f := full_flag d1 d2 n in
+  let mn := Nat.min d1 d2 in
+  let So := snd (fst (oracle f)) in
+  let p := Nat.min k mn in
+  let '(U, Sg, V) := truncated_svd oracle d1 d2 n in
+  let Er := fun i j => Mr i j - cprod_re p (cre U) (cim U) (cre V) (cim V) (sre Sg) i j in
+  let Ei := fun i j => Mi i j - cprod_im p (cre U) (cim U) (cre V) (cim V) (sre Sg) i j in
+  Sg = firstn k So /\ length Sg = p /\
+  herm_cols d1 (Nat.min k (if f then d1 else mn)) (cre U) (cim U) /\
+  herm_rows (Nat.min k (if f then d2 else mn)) d2 (cre V) (cim V) /\
+  cfrob2 d1 d2 Er Ei = rsum (mn - p) (fun t => (sre So (p + t)%nat)^2) /\
+  (forall Br Bi, crank_le d1 d2 k Br Bi -> cfrob2 d1 d2 Er Ei <= cfrob2 d1 d2 (fun i j => Mr i j - Br i j) (fun i j => Mi i j - Bi i j)).
+Proof.
+  intros HC k f mn So p. rewrite truncated_unfold. fold k f.
+  specialize (HC f). subst So. destruct (oracle f) as [[U0 S0] V0]. cbn [fst snd slice3].
+  destruct HC as ((RU & LS & RV) & OU & OV & SR & SMn & HMr & HMi). fold mn in LS, SR, SMn, HMr, HMi, OU, OV, RU, RV.
+  set (cU := if f then d1 else mn) in *. set (rV := if f then d2 else mn) in *.
+  assert (HcU : (mn <= cU)%nat) by (unfold cU, mn; destruct f; lia).
+  assert (HrV : (mn <= rV)%nat) by (unfold rV, mn; destruct f; lia).
+  set (U := map (firstn k) U0). set (V := firstn k V0). set (Sg := firstn k S0).
+  assert (Hp : (p <= mn)%nat) by (unfold p; lia). assert (Hpk : (p <= k)%nat) by (unfold p; lia).
+  assert (EP : forall i j,
+            cprod_re p (cre U) (cim U) (cre V) (cim V) (sre Sg) i j = cprod_re p (cre U0) (cim U0) (cre V0) (cim V0) (sre S0) i j /\
+            cprod_im p (cre U) (cim U) (cre V) (cim V) (sre Sg) i j = cprod_im p (cre U0) (cim U0) (cre V0) (cim V0) (sre S0) i j).
+  { intros i j. apply cprod_ext. intros t Ht. unfold U, V, Sg.
+    rewrite cre_map_firstn, cim_map_firstn, cre_firstn, cim_firstn, sre_firstn by lia. repeat split; reflexivity. }
+  assert (OUm : herm_cols d1 mn (cre U0) (cim U0)) by (now apply (herm_cols_sub d1 cU mn)).
+  assert (OVm : herm_rows mn d2 (cre V0) (cim V0)) by (now apply (herm_rows_sub rV mn d2)).
+  assert (EF : cfrob2 d1 d2 (fun i j => Mr i j - cprod_re p (cre U) (cim U) (cre V) (cim V) (sre Sg) i j)
+                            (fun i j => Mi i j - cprod_im p (cre U) (cim U) (cre V) (cim V) (sre Sg) i j)
+               = rsum (mn - p) (fun t => (sre S0 (p + t)%nat)^2)).
+  { rewrite <- (complex_trunc_error d1 d2 mn Mr Mi (cre U0) (cim U0) (cre V0) (cim V0) (sre S0) OUm OVm HMr HMi p Hp).
+    unfold cfrob2. apply rsum_ext; intros i _. apply rsum_ext; intros j _. destruct (EP i j) as [-> ->]. reflexivity. }
+  split; [reflexivity | split; [unfold Sg; rewrite firstn_length, LS; reflexivity|]].
+  split; [|split; [|split; [exact EF|]]].
+  - apply (herm_cols_ext d1 (Nat.min k cU) (cre U0) (cim U0)).
+    + intros i t _ Ht. unfold U. rewrite cre_map_firstn, cim_map_firstn by lia. now split.
+    + apply (herm_cols_sub d1 cU); [lia | exact OU].
+  - apply (herm_rows_ext (Nat.min k rV) d2 (cre V0) (cim V0)).
+    + intros t j Ht _. unfold V. rewrite cre_firstn, cim_firstn by lia. now split.
+    + apply (herm_rows_sub rV); [lia | exact OV].
+  - intros Br Bi (Xr & Xi & Yr & Yi & HBr & HBi). rewrite EF.
+    destruct (le_lt_dec mn k) as [Hge|Hlt].
+    + replace (mn - p)%nat with 0%nat by (unfold p; lia). cbn [rsum]. apply cfrob2_nonneg.
+    + assert (p = k) by (unfold p; lia). rewrite H.
+      apply (complex_eckart_young d1 d2 mn Mr Mi (cre U0) (cim U0) (cre V0) (cim V0) (sre S0) OUm OVm HMr HMi
+               (fun t Ht => proj2 (SR t Ht)) SMn k Br Bi Xr Xi Yr Yi HBr HBi).
+Qed.
